@@ -148,7 +148,7 @@ def shrink(case, pred):
     return cur
 
 
-def main(tier: str, pid=PID, gen=gen_case, oracle_fn=oracle, n_quick=1200, n_thorough=20000,
+def main(tier: str, pid=PID, gen=gen_case, oracle_fn=oracle, n_quick=4000, n_thorough=150000,
          rule=None, extra_tb=None, targets=None, prepare=None, extra_cases=None, nontrivial=None) -> int:
     targets = targets or ["Sim/Case.vo", f"Props/{pid}.vo"]
     run = C.Run(pid, tier)
